@@ -16,6 +16,9 @@
     start/end, a recording reporter logs the reports.  The Lean driver (`model: delayed`) runs `process`
     (_filter_tasks' delayed branches) and then decides whether the observed trace is a trace of the run model under
     SOME schedule (DFS over completion order / send(None) / waiting_me order); exit code and error class must agree.
+    Cases in which a created task has `setup` / `calc_dep` / `getargs` / a wildcard task_dep (request field `x`) are
+    decided by the same search over the extended system `Model/DelayedX.lean` (`Driver/DelayedX.lean`); the answer
+    carries `x_features` (which new transitions the accepting run took) for the evidence counters `X:…`.
 (P) Lean predicates on the implementation's trace: onceOK, afterOK, obeyOK (ordering + once-only over the dynamic
     dependency table), utdOK, targetOK (nothing outside the closure of the selection is executed; producer of a
     selected target processed; not-found error iff a target has no producer).
